@@ -20,6 +20,9 @@ let parse_act a =
   | 'A' -> ASetAdv (z_of_int (int_of_string (String.sub a 1 (String.length a - 1))))
   | 'X' -> ASetShift (z_of_int (int_of_string (String.sub a 1 (String.length a - 1))))
   | 'Y' -> ASetShiftY (z_of_int (int_of_string (String.sub a 1 (String.length a - 1))))
+  | 'C' -> APutCopy (z_of_int (int_of_string (String.sub a 1 (String.length a - 1))))
+  | 'U' -> let u = String.index a '_' in
+           ASetUser (nat_of_int (int_of_string (String.sub a 1 (u - 1))), z_of_int (int_of_string (String.sub a (u + 1) (String.length a - u - 1))))
   | 'T' -> AAttach (z_of_int (int_of_string (String.sub a 1 (String.length a - 1))))
   | 'P' | 'W' -> let u = String.index a '_' in
            let x = z_of_int (int_of_string (String.sub a 1 (u - 1))) and y = z_of_int (int_of_string (String.sub a (u + 1) (String.length a - u - 1))) in
@@ -39,10 +42,14 @@ let parse_rule r =
       r_con = (match List.filter (fun c -> String.length c > 2 && c.[0] = 'c') rest with
                | [c] ->
                  (* c<item><l|g|e><value> *)
+                 (* c<item><l|g|e><value>[u<user attr>] *)
                  let k = ref 1 in while !k < String.length c && c.[!k] >= '0' && c.[!k] <= '9' do incr k done;
+                 let (vs, us) = (match String.index_opt c 'u' with
+                                 | Some u -> (String.sub c (!k + 1) (u - !k - 1), Some (nat_of_int (int_of_string (String.sub c (u + 1) (String.length c - u - 1)))))
+                                 | None -> (String.sub c (!k + 1) (String.length c - !k - 1), None)) in
                  Some { c_item = nat_of_int (int_of_string (String.sub c 1 (!k - 1)));
                         c_cmp = (match c.[!k] with 'l' -> CLt | 'g' -> CGt | _ -> CEq);
-                        c_val = z_of_int (int_of_string (String.sub c (!k + 1) (String.length c - !k - 1))) }
+                        c_val = z_of_int (int_of_string vs); c_user = us }
                | _ -> None) }
   | _ -> failwith "rule"
 let parse_pass p = match split ':' p with [ml; rs] -> (nat_of_int (int_of_string ml), List.map parse_rule (split ';' rs)) | _ -> failwith "pass"
@@ -64,7 +71,8 @@ let () =
          Printf.printf "%s R adv=%d %s\n" id (int_of_z (fst fin)) (String.concat ";" (List.map (fun (i, s) ->
            let (x, y) = (try Hashtbl.find tbl i with Not_found -> (0, 0)) in
            let rec nat_to_int = function O -> 0 | S n -> 1 + nat_to_int n in
-           Printf.sprintf "%d,%d,%d,%d,%d" (int_of_n s.s_gid) (int_of_z s.s_adv) x y (match s.s_par with Some p -> nat_to_int p | None -> -1)) (idx 0 out)))
+           Printf.sprintf "%d,%d,%d,%d,%d,%s" (int_of_n s.s_gid) (int_of_z s.s_adv) x y (match s.s_par with Some p -> nat_to_int p | None -> -1)
+             (String.concat "/" (List.map (fun u -> string_of_int (int_of_z u)) s.s_user))) (idx 0 out)))
        with Failure m -> Printf.printf "%s R UNPARSABLE %s\n" id m | Not_found -> Printf.printf "%s R UNPARSABLE\n" id)
      | id :: _ -> Printf.printf "%s R BAD\n" id
      | [] -> print_endline "? R BAD")
